@@ -76,7 +76,7 @@ M = [
  ('interval-idx', ['C13', 'C09'], SU, 'if (index >= _startIndex && index < _endIndex && index + 1 < _endIndex) {', 'if (index >= _startIndex && index + 1 < _endIndex) {', 'D5 reintroduced'),
  # ---- C10 invariants
  ('move-keeps-indices', ['C10'], SU, '      : _grid{s._grid}, _startIndex{s._startIndex}, _endIndex{s._endIndex} {\n    s._startIndex = 0;\n    s._endIndex = 0;', '      : _grid{s._grid}, _startIndex{s._startIndex}, _endIndex{s._endIndex} {\n    s._startIndex = 0;\n    s._endIndex = s._endIndex > 3 ? 1 : 0;', 'moved-from support keeps a point-like window, coefficients gone'),
- ('setdata-order', ['C10', 'C14'], S, '    checkValidity(support, coefficients);\n    _support = std::move(support);\n    _coefficients = std::move(coefficients);', '    _support = std::move(support);\n    checkValidity(_support, coefficients);\n    _coefficients = std::move(coefficients);', 'setData assigns before validating (only differs on failing calls)'),
+ ('setdata-order', ['C10', 'C14'], S, '    checkValidity(support, coefficients);\n    _support = std::move(support);\n    _coefficients = std::move(coefficients);', '    _support = std::move(support);\n    checkValidity(_support, coefficients);\n    _coefficients = std::move(coefficients);', 'setData assigns before validating: equivalent, setData is only reached with a valid source (control)'),
  ('plus-size', ['C10', 'C03'], S, 'const size_t nintervals = newSupport.numberOfIntervals();\n\n    std::vector<std::array<T, NEW_ARRAY_SIZE>> ncoefficients(nintervals);', 'const size_t nintervals = newSupport.size() > 0 ? newSupport.size() - 1 + (newSupport.size() == 1 ? 1 : 0) : 0;\n\n    std::vector<std::array<T, NEW_ARRAY_SIZE>> ncoefficients(nintervals);', 'operator+ sizes by size(): one array for a point-like union'),
  ('grid-nan', ['C11', 'C10'], GR, 'if (!((*_data)[i - 1] < (*_data)[i])) {', 'if ((*_data)[i - 1] >= (*_data)[i]) {', 'D3 reintroduced'),
  # ---- C11 validation
